@@ -13,7 +13,7 @@ Definition ev (conn : N) (client syn fin : bool) (seq : N) (pay : bytes) : event
 
 Definition resp_head : bytes := bs "HTTP/1.1 200 OK" ++ crlf ++ bs "Server: x" ++ crlfcrlf.
 
-(* ISN = 2^32 - 10: "GET / HTT" ends exactly at 2^32, "P/1.1 CRLF Host: a CRLF CRLF" has sequence number 0 *)
+(* FORMER witness of the wrap class (repaired by fix C09-seq-wrap): ISN = 2^32 - 10: "GET / HTT" ends exactly at 2^32, "P/1.1 CRLF Host: a CRLF CRLF" has sequence number 0 *)
 Definition wrap_trace : list event :=
   [ ev 1 true true false 4294967286 [];
     ev 1 false true false 5000 [];
@@ -44,6 +44,15 @@ Definition fin_trace : list event :=
     ev 1 false true false 5000 [];
     ev 1 true false true 1001 (bs "GET / HTTP/1.0" ++ crlfcrlf);
     ev 1 false false false 5001 resp_head ].
+
+(* the far class (the limit of 32-bit serial arithmetic, not a repairable defect): a segment that starts
+   2^31 bytes beyond the ISN arrives first; by signed distance it sorts BEFORE the real first segment,
+   so the head that follows is rebuilt behind it and is not recognised *)
+Definition far_trace : list event :=
+  [ ev 1 true true false 1000 [];
+    ev 1 false true false 5000 [];
+    ev 1 true false false 2147484649 (bs "zzzz");
+    ev 1 true false false 1001 (bs "GET / HTTP/1.1" ++ crlf ++ bs "Host: a" ++ crlfcrlf) ].
 
 (* what is left of the dup class: the retransmission is re-segmented ("Host: a CRLF" comes again together
    with the final CRLF), it overlaps stored bytes without being a stored segment and is stored whole *)
@@ -88,10 +97,15 @@ Qed.
 Lemma outs_neq a b : outs_eqb a b = false -> a <> b.
 Proof. intros H E. subst. rewrite outs_eqb_refl in H. discriminate. Qed.
 
-Lemma wrap_refuted :
-  spec_wf recog_req recog_resp wrap_trace = true /\ classes wrap_trace = (true, false, false, false)
-  /\ model_outs wrap_trace <> spec_outs' wrap_trace.
+Lemma far_refuted :
+  spec_wf recog_req recog_resp far_trace = true /\ classes far_trace = (true, false, false, false)
+  /\ model_outs far_trace <> spec_outs' far_trace.
 Proof. split; [vm_compute; reflexivity|]. split; [vm_compute; reflexivity|]. apply outs_neq. vm_compute. reflexivity. Qed.
+
+Lemma wrap_former_witness_agrees :
+  spec_wf recog_req recog_resp wrap_trace = true /\ classes wrap_trace = (false, false, false, false)
+  /\ model_outs wrap_trace = spec_outs' wrap_trace.
+Proof. split; [vm_compute; reflexivity|]. split; vm_compute; reflexivity. Qed.
 
 Lemma gap_refuted :
   spec_wf recog_req recog_resp gap_trace = true /\ classes gap_trace = (false, true, false, false)
@@ -118,7 +132,3 @@ Lemma fin_former_witness_agrees :
   /\ model_outs fin_trace = spec_outs' fin_trace.
 Proof. split; [vm_compute; reflexivity|]. split; vm_compute; reflexivity. Qed.
 
-(* what exactly goes wrong (for the report) *)
-Example wrap_shows : map (fun o => match o with OReq _ => 1 | OResp _ => 2 | ONone => 0 end) (model_outs wrap_trace) = [0;0;0;0;2]
-  /\ map (fun o => match o with OReq _ => 1 | OResp _ => 2 | ONone => 0 end) (spec_outs' wrap_trace) = [0;0;0;1;2].
-Proof. split; vm_compute; reflexivity. Qed.
